@@ -202,8 +202,7 @@ def check_real_schedulers(scn, ref_cache):
     cube = S.build_cube(scn)
     for sched, kw in (("synchronous", {}), ("threads", {"num_workers": 1}), ("threads", {"num_workers": 2}), ("threads", {"num_workers": 16})):
         try:
-            with warnings.catch_warnings():
-                warnings.simplefilter("ignore")
+            if True:  # warnings are silenced process-wide (catch_warnings is not thread-safe)
                 lazy = S.apply_op(scn, S.make_lazy(scn, cube), lazy=True)
                 (res,) = dask.compute(lazy, scheduler=sched, **kw)
             n += 1
